@@ -18,8 +18,10 @@ func (e Expr) MarshalJSON() ([]byte, error) {
 		return json.Marshal(map[string]any{"op": e.Op, "abs": e.Abs, "steps": nn(e.Steps)})
 	case "filter":
 		return json.Marshal(map[string]any{"op": e.Op, "prim": e.Prim, "preds": nn(e.Preds), "steps": nn(e.Steps)})
-	case "num", "lit":
+	case "num":
 		return json.Marshal(map[string]any{"op": e.Op, "v": e.V})
+	case "lit":
+		return json.Marshal(map[string]any{"op": e.Op, "s": nn(e.S)})
 	case "var":
 		return json.Marshal(map[string]any{"op": e.Op, "pre": e.Pre, "lo": nn(e.Lo)})
 	case "call":
